@@ -8,6 +8,9 @@ SPEC = {
     "bins": [
         {"name": "c12-math", "pkg": "./zz_verif/c12", "run": "^TestC12", "configs": CPU_OFF, "quick_configs": ["default"],
          "shards": {"quick": 1, "thorough": 2}},
+        {"name": "c12-bls", "pkg": "./zz_verif/c12/bls", "run": "^TestC12", "shards": {"quick": 1, "thorough": 8}},
+        {"name": "c12-prio", "pkg": "./zz_verif/c12/prio", "run": "^TestC12", "shards": {"quick": 1, "thorough": 4}},
+        {"name": "c12-scalar", "pkg": "./zz_verif/c12/scalar", "run": "^TestC12", "shards": {"quick": 1, "thorough": 4}},
         _wb("c12-wb-fp25519", "./math/fp25519"),
         _wb("c12-wb-fp448", "./math/fp448"),
         _wb("c12-wb-p384", "./ecc/p384"),
